@@ -372,6 +372,30 @@ import threading
 _SEM = threading.Semaphore(int(os.environ.get("VERIF_JOBS", "16")))
 
 
+_ACTIVE = set()
+
+
+def _kill_children(signum=None, frame=None):
+    """a check that is itself terminated (timeout of the caller) must not leave solvers running"""
+    import signal
+    for pid in list(_ACTIVE):
+        try:
+            os.killpg(pid, signal.SIGKILL)
+        except Exception:
+            pass
+    if signum is not None:
+        os._exit(2)
+
+
+import atexit, signal as _signal
+atexit.register(_kill_children)
+for _s in (_signal.SIGTERM, _signal.SIGINT, _signal.SIGHUP):
+    try:
+        _signal.signal(_s, _kill_children)
+    except Exception:
+        pass
+
+
 def run(cmd, cwd, timeout, mem_gb=8, stdout_path=None):
     with _SEM:
         return _run(cmd, cwd, timeout, mem_gb)
@@ -386,14 +410,17 @@ def _run(cmd, cwd, timeout, mem_gb=8):
     import signal
     proc = subprocess.Popen(["bash", "-c", shell_cmd], cwd=cwd, env=tool_env(), stdout=subprocess.PIPE, stderr=subprocess.PIPE,
                             text=True, start_new_session=True)
+    _ACTIVE.add(proc.pid)
     try:
         so, se = proc.communicate(timeout=timeout)
+        _ACTIVE.discard(proc.pid)
         return proc.returncode, so, se, time.time() - t0
     except subprocess.TimeoutExpired:
         try:
             os.killpg(proc.pid, signal.SIGKILL)
         except ProcessLookupError:
             pass
+        _ACTIVE.discard(proc.pid)
         try:
             so, se = proc.communicate(timeout=10)
         except Exception:
@@ -835,3 +862,74 @@ class Report:
         if self.inconclusive or self.obligations == 0:
             return 2
         return 0
+
+
+# --------------------------------------------------------------------------------------
+# native replay: rebuild the REAL library from the tree under verification and run native/replay_ops on the counterexample's
+# configuration (grid shape, boundary mode, thread count).  Best effort: any failure to build is reported as `error`.
+# --------------------------------------------------------------------------------------
+_NATIVE_CACHE = {}
+_NATIVE_LOCK = threading.Lock()
+
+
+def native_build_dir():
+    tag = hashlib.sha256(os.path.abspath(REPO).encode()).hexdigest()[:10]
+    return os.path.join(tempfile.gettempdir(), "gmgverif-native-" + tag)
+
+
+def native_library():
+    """configure (once) and build the library of REPO's current working tree outside /repo and /verif"""
+    b = native_build_dir()
+    if "lib" in _NATIVE_CACHE:
+        return _NATIVE_CACHE["lib"]
+    os.makedirs(b, exist_ok=True)
+    if not os.path.exists(os.path.join(b, "build.ninja")):
+        rc, so, se, _ = _run(["cmake", "-G", "Ninja", "-S", REPO, "-B", b, "-DCMAKE_BUILD_TYPE=RelWithDebInfo", "-DCMAKE_CXX_FLAGS=-Wno-error",
+                              "-DGMGPOLAR_BUILD_TESTS=OFF", "-DGMGPOLAR_USE_MUMPS=OFF", "-DGMGPOLAR_USE_LIKWID=OFF"], b, 600, 16)
+        if rc != 0:
+            _NATIVE_CACHE["lib"] = (None, "cmake configure failed: " + (so + se)[-400:])
+            return _NATIVE_CACHE["lib"]
+    rc, so, se, _ = _run(["cmake", "--build", b, "-j16", "--target", "GMGPolarLib"], b, 1500, 32)
+    _NATIVE_CACHE["lib"] = (b, "") if rc == 0 else (None, "library build failed: " + (so + se)[-600:])
+    return _NATIVE_CACHE["lib"]
+
+
+def native_ops_replay(mode, nr, nt, nsc, dirbc, threads=4):
+    key = (mode, nr, nt, nsc, dirbc, threads)
+    with _NATIVE_LOCK:
+        if key in _NATIVE_CACHE:
+            return _NATIVE_CACHE[key]
+        b, err = native_library()
+        if b is None:
+            res = {"status": "error", "detail": err}
+        else:
+            exe = os.path.join(b, "replay_ops")
+            if "exe" not in _NATIVE_CACHE:
+                rc, so, se, _ = _run(["g++", "-std=c++20", "-O1", "-fopenmp", "-I" + os.path.join(REPO, "include"),
+                                      os.path.join(VERIF, "native", "replay_ops.cpp"), os.path.join(b, "libGMGPolarLib.a"),
+                                      os.path.join(b, "libPolarGrid.a"), os.path.join(b, "libInputFunctions.a"), "-o", exe], b, 900, 16)
+                _NATIVE_CACHE["exe"] = (rc == 0, (so + se)[-600:])
+            ok, msg = _NATIVE_CACHE["exe"]
+            if not ok:
+                res = {"status": "error", "detail": "replay driver did not compile: " + msg}
+            else:
+                env = dict(os.environ, OMP_WAIT_POLICY="passive")
+                try:
+                    p = subprocess.run([exe, mode, str(nr), str(nt), str(nsc), str(dirbc), str(threads)], capture_output=True, text=True, timeout=300, env=env)
+                    res = {"status": "reproduced" if p.returncode == 1 else ("not-reproduced" if p.returncode == 0 else "error"),
+                           "command": "replay_ops %s %d %d %d %d %d" % (mode, nr, nt, nsc, dirbc, threads), "detail": p.stdout[-1500:] + p.stderr[-300:]}
+                except subprocess.TimeoutExpired:
+                    res = {"status": "error", "detail": "native replay timed out"}
+        _NATIVE_CACHE[key] = res
+        return res
+
+
+def ops_replay_cb(mode):
+    """replay callback for the Layer-R operator checks: shape and boundary mode are read from the verifier job name"""
+    def cb(job, key, label, rec):
+        m = re.search(r"nr=(\d+),nt=(\d+),nsc[F]?=(\d+)", job.name)
+        if not m:
+            return None
+        d = re.search(r"DirBC=(\d)", job.name)
+        return native_ops_replay(mode, int(m.group(1)), int(m.group(2)), int(m.group(3)), int(d.group(1)) if d else 0)
+    return cb
